@@ -77,6 +77,11 @@ CHECKS = {
             "For every canonical tree within the bound and every documented catalogue formula z3 decides that the value of the rendering, read under ordinary precedence with name-aware tokenisation, equals the value of the original for ALL positive real values of the leaves (opaque heads and float literals are named leaves).",
             "Trusted: z3 nlsat, vlib/exprparse.py (the reader), SymPy arithmetic when rebuilding the read expression. Renderings outside the reader's grammar are inconclusive, never passed. Fully unevaluated synthetic trees are outside the property's quantifier (observation in DESIGN.md).",
             "3.17"),
+    "C18": ("S", "other",
+            "real latex_str on enumerated canonical trees and every catalogue member in source form; lexical well-formedness scan of every rendering; rendering read back by an independent LaTeX reader; value equality decided by z3 (QF_NRA)",
+            "Well-formedness (balanced braces, matched delimiters/environments) is checked lexically on every rendering (no solver). For every rendering inside the reader's grammar z3 decides that its value equals the original's for ALL positive real leaf values.",
+            "Trusted: z3 nlsat, vlib/latexparse.py, SymPy arithmetic. Renderings outside the reader's grammar are inconclusive for meaning (counted), never passed. Unevaluated synthetic trees are outside the property's quantifier.",
+            "3.18"),
 }
 
 NOT_APPLICABLE = {
